@@ -7,9 +7,10 @@ The recogniser works in two halves:
 
 * the *scanner* (`canvas.rs`): text → layered canvas → regions → `Plane` (a matrix of cells
   tagged with region numbers and texts, interleaved with cells standing for the double lines)
-  plus the optional information item name.  **The scanner is not modelled here**; it is tied
-  to this model by correspondence only (`harness/src/c19.rs`: the plane the real scanner
-  produces for `draw t` is compared with `planeOf t`).
+  plus the optional information item name.  The scanner is modelled in `Model/Canvas.lean`
+  (`scanText`); here it appears only through its result type `Plane` and through `planeOf`, the
+  plane a drawing denotes (`harness/src/c19.rs` compares the plane the real scanner produces
+  for `draw t` with `planeOf t`, and the real scanner with `scanText` on every text).
 * the *plane logic* (`plane.rs`, `recognizer.rs`, `builder.rs`): orientation, hit policy and
   rule number placement, the header-row-count case analysis, `pivot`, size validation and the
   construction of the `DecisionTable`.  This half is modelled statement by statement below;
